@@ -208,16 +208,17 @@ static void runSeq(std::istringstream& is, const char* cfgName)
 		Table table(Cfg::make(&st));
 		rowSize = Cfg::rowSize(table); blockSize = table.mRawMemPool.GetBlockSize(); blockCount = Table::RawMemPool::Params::blockCount;
 		Ids ids; std::vector<Row> det; size_t created = 0; std::string op;
+		Table* cur = &table;                 // the table object that currently owns the crew (changes while the table is moved around)
 		const Row* extraObj = nullptr;       // a temporary Row object to be shown after the detached slots
 		auto objState = [&] (const Row& r) {  // the three members of the Row object, byte for byte (canonicalised)
 			std::string s = r.mRaw == nullptr ? "-" : std::to_string(ids.of(r.mRaw));
-			s += r.mFreeRaws == &table.mCrew.mData->freeRaws ? ":T" : r.mFreeRaws == nullptr ? ":0" : ":?";
-			s += r.mColumnList == &table.GetColumnList() ? "" : "!cl";
+			s += r.mFreeRaws == &cur->mCrew.mData->freeRaws ? ":T" : r.mFreeRaws == nullptr ? ":0" : ":?";
+			s += r.mColumnList == &cur->GetColumnList() ? "" : "!cl";
 			return s;
 		};
 		auto emit = [&] (const std::string& ev) {
 			if (!first) out << ' '; first = false;
-			out << ev << "|fl=" << freeList(table, ids, created + 1) << "|pc=" << table.mRawMemPool.GetAllocateCount()
+			out << ev << "|fl=" << freeList(*cur, ids, created + 1) << "|pc=" << cur->mRawMemPool.GetAllocateCount()
 				<< "|lv=" << (Tracked::live.load() - live0) << "|ro=";
 			for (size_t i = 0; i < det.size(); ++i) out << (i ? "," : "") << objState(det[i]);
 			if (extraObj != nullptr) out << (det.empty() ? "" : ",") << objState(*extraObj);
@@ -311,8 +312,12 @@ static void runSeq(std::istringstream& is, const char* cfgName)
 			}
 			else if (c == 'v')
 			{
-				Table other(std::move(table)); table = std::move(other);   // Crew data (the list head) must stay where the rows point
-				emit("-");
+				Table other(std::move(table));       // Crew data (the list head) must stay where the rows point
+				cur = &other;
+				emit(table.mCrew.IsNull() && !other.mCrew.IsNull() ? "V1" : "V!");   // the moved-from table has a null crew; rows are compared against `other`
+				table = std::move(other);            // DataTable(std::move(other)).Swap(*this)
+				cur = &table;
+				emit(other.mCrew.IsNull() && !table.mCrew.IsNull() ? "V0" : "V!");
 			}
 			else
 				emit("-");
